@@ -549,6 +549,91 @@ func (p *Program) wordBits() int {
 	return 64
 }
 
+// shortLengthWrites: sites in registered writers (and the stream helpers they call) that write a non-constant string / byte
+// slice with a length prefix narrower than 4 bytes: values longer than 255 / 65535 bytes make the writer fail.
+type shortWrite struct {
+	Fn    *ssa.Function
+	In    ssa.Instruction
+	Bytes int64
+	What  string
+	Ord   int // ordinal among the short writes of Fn
+}
+
+func (p *Program) shortLengthWrites() []shortWrite {
+	c := p.codec()
+	var out []shortWrite
+	seen := map[*ssa.Function]bool{}
+	// which Writer methods write with a short prefix regardless of the argument (WriteShortString → WriteBytesWithLength(_, 1))
+	shortMethod := map[*ssa.Function]int64{}
+	var wbl *ssa.Function
+	for _, m := range p.methodsOf(c.WriterT) {
+		if m.Name() == "WriteBytesWithLength" {
+			wbl = m
+		}
+	}
+	if wbl != nil {
+		for _, m := range p.methodsOf(c.WriterT) {
+			for _, b := range m.Blocks {
+				for _, in := range b.Instrs {
+					if cc := callOf(in); cc != nil && cc.StaticCallee() == wbl && len(cc.Args) == 3 {
+						if k, ok := constInt(cc.Args[2]); ok && k < 4 {
+							shortMethod[m] = k
+						}
+					}
+				}
+			}
+		}
+	}
+	var visit func(fn *ssa.Function, depth int)
+	visit = func(fn *ssa.Function, depth int) {
+		if fn == nil || seen[fn] || depth > 4 {
+			return
+		}
+		seen[fn] = true
+		for _, b := range fn.Blocks {
+			for _, in := range b.Instrs {
+				cc := callOf(in)
+				if cc == nil || cc.StaticCallee() == nil {
+					continue
+				}
+				cal := cc.StaticCallee()
+				if p.inModule(cal) && (cal.Signature.Recv() == nil || namedOf(cal.Signature.Recv().Type()) != c.WriterT) {
+					if _, isW := p.streamParam(cal); isW {
+						visit(cal, depth+1)
+					}
+					continue
+				}
+				k, short := shortMethod[cal]
+				if cal == wbl && len(cc.Args) == 3 {
+					if kk, ok := constInt(cc.Args[2]); ok && kk < 4 {
+						k, short = kk, true
+					}
+				}
+				if !short || len(cc.Args) < 2 {
+					continue
+				}
+				if _, isConst := unconv(cc.Args[1]).(*ssa.Const); isConst {
+					continue // a literal of known length
+				}
+				ord := 1
+				for _, o := range out {
+					if o.Fn == fn {
+						ord++
+					}
+				}
+				out = append(out, shortWrite{Fn: fn, In: in, Bytes: k, What: cal.Name(), Ord: ord})
+			}
+		}
+	}
+	for _, rg := range p.registrations() {
+		visit(rg.Writer, 0)
+	}
+	for _, f := range []*ssa.Function{p.Func("internal/remoting/serialize", "EncodeEnvelopWithRemoting")} {
+		visit(f, 0)
+	}
+	return out
+}
+
 func c12Lossy(p *Program, r *Report) {
 	n := 0
 	seen := map[*ssa.Function]bool{}
@@ -600,6 +685,11 @@ func c12Lossy(p *Program, r *Report) {
 	}
 	for _, rg := range p.registrations() {
 		visit(rg.Writer, 0)
+	}
+	for _, sw := range p.shortLengthWrites() {
+		n++
+		r.Violate(fmt.Sprintf("%s: %s #%d with a %d-byte length prefix", fnName(sw.Fn), sw.What, sw.Ord, sw.Bytes), sw.In.Pos(),
+			fmt.Sprintf("a string/byte value of unbounded length is written with a %d-byte length prefix: longer values make the writer fail, they do not round-trip", sw.Bytes))
 	}
 	if n == 0 {
 		r.Lookup("writer-side integer conversions", token.NoPos, "no narrowing conversion of a message field found")
